@@ -392,7 +392,7 @@ func writeComputedFieldExpression(w *formatting.IndentedWriter, expression dsl.E
 				return
 			}
 			if targetType.Cases.IsOptional() {
-				fmt.Fprintf(w, "[](auto&& __case_arg__) -> %s {\n", common.TypeSyntax(t.ResolvedType))
+				fmt.Fprintf(w, "[&](auto&& __case_arg__) -> %s {\n", common.TypeSyntax(t.ResolvedType))
 				w.Indented(func() {
 					for i, switchCase := range t.Cases {
 						writeSwitchCaseOverOptional(w, switchCase, "__case_arg__", i == len(targetType.Cases)-1, self)
